@@ -57,7 +57,7 @@ func c12Cases(run *vx.Run) []c12Case {
 				i := p.PixOffset(x, y)
 				p.Pix[i] = uint8((x*255/w + rng.Intn(12)) & 255)
 				p.Pix[i+1] = uint8((y*255/h + rng.Intn(12)) & 255)
-				p.Pix[i+2] = uint8(((x + y) * 2 + rng.Intn(30)) & 255)
+				p.Pix[i+2] = uint8(((x+y)*2 + rng.Intn(30)) & 255)
 				p.Pix[i+3] = 255
 			}
 		}
